@@ -389,6 +389,17 @@ def directed():
     for a_, b_ in (([1, 2, 2, 3, 3, 3], [4, 5, 5, 5, 5, 5]), ([7, 7, 7, 7], [1, 2, 3, 4]), ([1, 2, 3, 4], [9, 9, 9, 9]), ([5, 5, 6, 6], [1, 1, 2, 2])):
         for uf_ in ("subtract", "add", "multiply", "floor_divide"):
             yield {"kind": "inplace", "dtype": "int64", "vals": a_, "dtype2": "int64", "vals2": b_, "uf": uf_, "vclass": "small"}
+    # operands whose runs switch at the SAME positions between values of very different magnitude: every aligned pair is harmless,
+    # a pair taken across the common boundary (new value of one, old value of the other) would overflow / be invalid
+    for a_, b_, ufs in (([1e200] * 3 + [1e-200] * 2, [1e-200] * 3 + [1e200] * 2, ("multiply",)),
+                        ([1e-200] * 2 + [1e200] * 4, [1e-200] * 2 + [1e200] * 4, ("true_divide", "subtract")),
+                        ([float("inf")] * 2 + [1.0] * 2 + [float("inf")], [1.0] * 2 + [float("inf")] * 2 + [1.0], ("subtract", "true_divide", "multiply")),
+                        ([0.0] * 3 + [float("inf")] * 2, [float("inf")] * 3 + [0.0] * 2, ("add", "maximum")),
+                        ([3e38, 3e38, -3e38, -3e38, 1.0], [-3e38, -3e38, 3e38, 3e38, 1.0], ("add",))):
+        for uf_ in ufs:
+            for dtype_ in ("float64",) if max(abs(x) for x in a_ + b_ if x == x and abs(x) != float("inf")) > 1e39 else ("float64", "float32"):
+                yield {"kind": "rl", "dtype": dtype_, "vals": a_, "dtype2": dtype_, "vals2": b_, "uf": uf_, "align": "coincident", "vclass": "extreme"}
+                yield {"kind": "rl", "dtype": dtype_, "vals": b_, "dtype2": dtype_, "vals2": a_, "uf": uf_, "align": "coincident", "vclass": "extreme"}
     for kw_ in ({"density": True}, {"range": [1.0, 4.0]}, {"range": [1.0, 4.0], "density": True}, {"range": [3.0, 20.0], "density": True}):
         yield {"kind": "hist", "dtype": "int64", "vals": [1, 1, 2, 5, 5, 5, 9, 9, 3], "bins": 4, "kw": kw_, "vclass": "small"}
         if "range" in kw_:
